@@ -161,7 +161,8 @@ def gen(tier, rng, shard, nshards):
             yield {"mode": "hutch-formula", "seed": S.seed(rng), "key": int(rng.integers(0, 2**31 - 1)), "n": int(S.pick(rng, [2, 3, 6, 10, 101, 130])),
                    "k": int(S.pick(rng, [0, 0, 1, -1, 3, -3])), "rand": S.pick(rng, ["normal", "rademacher"]), "max_iters": int(S.pick(rng, [1, 2, 3, 7])),
                    "dt": S.pick(rng, ["f8", "f8", "c16"]), "kind": S.pick(rng, ["Dense", "Diagonal", "Dense"]),
-                   "via": S.pick(rng, ["function", "function", "Hutch-object"]), "annot": S.pick(rng, [None, None, "PSD", "SelfAdjoint"])}
+                   "via": S.pick(rng, ["function", "function", "Hutch-object"]), "annot": S.pick(rng, [None, None, "PSD", "SelfAdjoint"]),
+                   "form": S.pick(rng, [None, None, None, "H-product", "T-product", "H-sum", "T-sum", "H-triinv", "H-generic", "H-kron"])}
         else:
             yield {"mode": "hutch-bias", "seed": S.seed(rng), "n": int(S.pick(rng, [3, 5, 8])), "k": int(S.pick(rng, [0, 1, -1])),
                    "rand": S.pick(rng, ["normal", "rademacher"])}
@@ -392,6 +393,28 @@ def run_formula(ctx, case):
         # entries of both signs
         A = wrap(cola.ops.LinearOperator(M.dtype, M.shape, matmat=lambda X, M=M: M @ X))
         preds["declared"] = case["annot"]
+    form = case.get("form")
+    if form and not case.get("annot") and case["kind"] == "Dense" and n <= 12:
+        # the operator handed to the estimator is a *view* (adjoint / transpose wrapper) of the output of another combinator or
+        # routine: lazy Transpose / Adjoint objects of products, sums, Kronecker products, triangular inverses, matrix-free operators
+        G1 = make_operator(n, case["seed"] + 1, case["dt"], sym=False)
+        G2 = make_operator(n, case["seed"] + 2, case["dt"], sym=False)
+        if form in ("H-product", "T-product"):
+            base, Mb = cola.ops.Dense(G1) @ cola.ops.Dense(G2), G1 @ G2
+        elif form in ("H-sum", "T-sum"):
+            base, Mb = cola.ops.Dense(G1) + cola.ops.Diagonal(np.diag(G2).copy()), G1 + np.diag(np.diag(G2))
+        elif form == "H-triinv":
+            Tm = np.tril(G1) + n * np.eye(n)
+            base, Mb = cola.linalg.inv(cola.ops.Triangular(Tm.astype(G1.dtype), lower=True)), np.linalg.inv(Tm)
+        elif form == "H-kron" and n % 2 == 0:
+            base, Mb = cola.ops.Kronecker(cola.ops.Dense(G1[:2, :2].copy()), cola.ops.Dense(G2[:n // 2, :n // 2].copy())), np.kron(G1[:2, :2], G2[:n // 2, :n // 2])
+        else:
+            base, Mb = cola.ops.LinearOperator(G1.dtype, G1.shape, matmat=lambda X, G1=G1: G1 @ X), G1
+        A = base.H if form.startswith("H") else base.T
+        M = (Mb.conj().T if form.startswith("H") else Mb.T).astype(M.dtype)
+        preds["operator_form"] = form + ":" + type(A).__name__.split("[")[0]
+        ctx.count("operator_form", preds["operator_form"])
+        case = dict(case, via="function")
     TAP.start()
     LOOPS.install()
     LOOPS.start(hard_cap=case["max_iters"] + 5)
